@@ -6,7 +6,7 @@
     nothing else); and what [write_dir] puts on the device [read_dir] — which is all a later mount has — reads back,
     entry for entry, for the fixed root region and for cluster-chain directories. *)
 From Coq Require Import ZArith List Bool Lia FMapPositive.
-From PyFatV Require Import Base.Bytes Base.PyEnv Gen.Pure Model.Codec Model.Dir Model.FS Proofs.Session Proofs.FatCodec Proofs.Device Proofs.DirCodec Proofs.DirState Proofs.Chains Proofs.FatState Proofs.HdrState Proofs.Identity Proofs.Remount Proofs.Names.
+From PyFatV Require Import Base.Bytes Base.PyEnv Gen.Pure Model.Codec Model.Dir Model.FS Proofs.Session Proofs.FatCodec Proofs.Device Proofs.DirCodec Proofs.DirState Proofs.Chains Proofs.FatState Proofs.HdrState Proofs.Identity Proofs.Remount Proofs.Names Proofs.Dots.
 Import ListNotations.
 Open Scope Z_scope.
 
@@ -264,3 +264,18 @@ Proof.
     + apply (f_equal (fun l => nthZ l 1)) in H. vm_compute in H. discriminate.
     + apply (f_equal BS_Reserved1) in H. vm_compute in H. discriminate.
 Qed.
+
+(** nothing acknowledged exists in memory only — the time stamps of a re-created (wiped) file included: the operation always rewrites the
+    directory with the entry carrying the new times and flushes the FAT, also when the file was already empty *)
+Theorem C03_create_wipe_rewrites_directory : forall s path t s' ploc e,
+  get_dir_entry s path = Ok (EAt ploc e) -> is_dir e = false ->
+  op_create s path true t = Ok (true, s') ->
+  exists es s1 s2,
+    read_dir s ploc = Ok es /\
+    (if get_cluster e =? 0 then s1 = s else free_chain s (get_cluster e) = Ok s1) /\
+    write_dir s1 ploc (map (fun x => if list_eqb (d_name x) (d_name e)
+                                      then set_lfn (set_size (set_cluster (set_times e (d_crttime e) (d_crtdate e) (date_of t) (time_of t) (date_of t)) 0) 0) (d_lfn x)
+                                      else x) es) = Ok s2 /\
+    flush_fat s2 = Ok s'.
+Proof. exact create_wipe_rewrites_directory. Qed.
+Print Assumptions C03_create_wipe_rewrites_directory.
